@@ -1,9 +1,68 @@
+"""C07 (extension msc) — init_from_image beyond 3 pixels, modularly (seed C07-3: widths > 32 with a trailing
+partial word).  Exposes jobs(tier) / META_EXTRA for props/C07.py to merge; standalone: bin/check C07_msc."""
 from vdriver import Job
+
+STUB = ("image_scan.*: bitmap_addrect (static inline helper of init_from_image) replaced by a recording stub that "
+        "checks every call (legal arguments; runs non-empty, inside the row, in scan order, separated by gaps) and "
+        "tracks a ghost pixel; its effect on the region is not modelled in these jobs (the helper itself: jobs "
+        "addrect.*, the use of the stored rectangles: jobs image_e2e.*)")
+ALLOC = ("image_e2e.*: allocator modelled for the verifier (malloc returns one typed block with room for 2*maxrects+2 "
+         "boxes, every request checked to fit; realloc of that block returns it; no failure injected); natively the "
+         "real allocator runs")
+
+
 def jobs(tier):
-    js=[]
-    for w in (33,):
-        js.append(Job("image_wide32.w%d.h1" % w, "C07/msc_image_wide.c", defines={"VC_W": w, "VC_H": 1}, kind="bounded",
-                      bound="w", unwind=70, timeout=900, min_props=8))
+    thorough = tier != "quick"
+    js = []
+    scan = [(33, 1), (40, 1), (64, 1), (65, 1), (33, 2)]
+    if thorough:
+        scan += [(w, 1) for w in (34, 35, 36, 37, 38, 39, 63, 95, 96)] + [(65, 2), (96, 2)]
+    for b16 in (0, 1):
+        sfx = "16" if b16 else "32"
+        fn = "pixman_region%s_init_from_image" % ("" if b16 else "32")
+        d = {"VR16": 1} if b16 else {}
+        for w, h in scan:
+            if b16 and not (thorough or (w, h) == (33, 1)):
+                continue
+            js.append(Job("image_scan%s.w%d.h%d" % (sfx, w, h), "C07/msc_image_scan.c", defines=dict(d, VC_W=w, VC_H=h),
+                          kind="bounded", bound="a1 image %d x %d, every bit pattern incl. padding bits/word" % (w, h),
+                          functions=[fn], unwind=34, timeout=300, min_props=7, assumptions=[STUB],
+                          domain="width %d, height %d, all bits symbolic, stride with or without a padding word; ghost pixel in int x int: "
+                                 "in a run handed to bitmap_addrect <=> bit set; runs maximal, in scan order" % (w, h)))
+        # ---- the helper against the contract the decomposition relies on
+        combos = [(0, 0), (1, 1), (2, 2), (2, 3)] + ([(1, 2), (3, 3), (3, 4)] if thorough else [])
+        for n, size in combos:
+            if b16 and not (thorough or (n, size) == (2, 2)):
+                continue
+            js.append(Job("addrect%s.n%d.size%d" % (sfx, n, size), "C07/msc_addrect.c", defines=dict(d, VC_N=n, VC_SIZE=size),
+                          kind="bounded", bound="region with %d rectangles in a block of %d" % (n, size),
+                          functions=["bitmap_addrect", "pixman_rect_alloc"], unwind=6, timeout=600, min_props=8,
+                          cbmc_flags=["--pointer-check", "--bounds-check", "--memory-leak-check"],
+                          domain="any existing boxes/extents, any new box in int^4, any allocation-failure pattern: skip / append / NULL+broken"))
+        # ---- end to end at narrow widths, two rows (row coalescing, extents, normalisation), allocator modelled
+        for w, h in ([(4, 2), (2, 3)] + ([(6, 2), (8, 2), (5, 1), (3, 3)] if thorough else [])):
+            if b16 and not thorough:
+                continue
+            js.append(Job("image_e2e%s.w%d.h%d" % (sfx, w, h), "C07/msc_image_wide.c", defines=dict(d, VC_W=w, VC_H=h),
+                          kind="bounded", bound="a1 image %d x %d, every bit pattern" % (w, h),
+                          functions=[fn, "bitmap_addrect", "pixman_rect_alloc"], unwind=max(10, w * h // 2 + 2), timeout=900, min_props=10,
+                          assumptions=[ALLOC],
+                          domain="width %d, height %d, all bits symbolic; any point in int x int: in region <=> bit set; canonical, equal rows coalesced" % (w, h)))
+    # ---- "band, gap, same band again" at width 8 (seed C06-4: a later line merged into a band above an empty line)
+    if thorough:
+        js.append(Job("image_e2e32.w8.h3.gap", "C07/msc_image_wide.c", defines={"VC_W": 8, "VC_H": 3, "VC_GAP": 1}, kind="bounded",
+                      bound="a1 image 8 x 3 with row 1 clear and row 2 == row 0 (every pattern of row 0, padding bits free)",
+                      functions=["pixman_region32_init_from_image", "bitmap_addrect", "pixman_rect_alloc"], unwind=14, timeout=1800, min_props=10,
+                      assumptions=[ALLOC, "image_e2e32.w8.h3.gap: row 1 clear, row 2 equal to row 0 (the unrestricted 3-row cases are image_e2e*.w2.h3 / w3.h3)"],
+                      domain="any point in int x int: in region <=> bit set; canonical; the two bands stay separate"))
     return js
-META_EXTRA = {"trusted_base": [], "assumptions": [], "not_covered": []}
-META = dict(level="proof", **META_EXTRA)
+
+
+META_EXTRA = {
+    "trusted_base": ["spec/spec_regionq.h RQ_A1_BIT: a1 bit order of the build, from the property text"],
+    "assumptions": [STUB, ALLOC],
+    "not_covered": ["init_from_image end to end (real bitmap_addrect + real allocator) beyond width 3: decomposed into "
+                    "image_scan.* (scan logic, wide), addrect.* (helper contract), image_e2e.* (narrow, allocator modelled)"],
+}
+META = {"level": "proof", "trusted_base": META_EXTRA["trusted_base"], "assumptions": META_EXTRA["assumptions"],
+        "not_covered": META_EXTRA["not_covered"]}
